@@ -150,7 +150,7 @@ def opOk (op : Source.AtomicOp) : Bool :=
   | .walkLoad => op.kind == .load && acquiring op.ord
   | .lenCas => isRmw op.kind
   | .lenLoad | .headLoad | .nextLoad => op.kind == .load
-  | .counter | .audit => true
+  | .counter | .keyCounter | .audit => true
   | .unknown => false
 
 theorem sync_table :
